@@ -82,6 +82,22 @@ def corpus():
                          dict(op='add', rule='/s', methods=['PATCH', 'put'], h=6, mkind='tuple')]
                    + _probe_all(['/s', '/w/7', '/a/b'], ['GET', 'POST', 'PUT', 'DELETE', 'PATCH', 'BREW'])
                    + [dict(op='by_rule', rule=r) for r in ('/s', '/w/<x>', '/a/b')]))
+    # one verb given as an instance of a str SUBCLASS (enum member, http.HTTPMethod): one method, not its characters
+    cs.append(dict(cmds=[dict(op='add', rule='/s', methods='GET', h=1, mkind='httpmethod'),
+                         dict(op='add', rule='/s', methods='post', h=2, mkind='enum', via='route_deco'),
+                         dict(op='add', rule='/w/<x>', methods='PUT', h=3, mkind='strsub', via='router_add'),
+                         dict(op='add', rule='/a/b', methods=['GET', 'DELETE'], h=4, mkind='enum')]
+                   + _probe_all(['/s', '/w/7', '/a/b'], ['GET', 'POST', 'PUT', 'DELETE', 'G', 'E', 'T', 'BREW'])
+                   + [dict(op='by_rule', rule=r) for r in ('/s', '/w/<x>', '/a/b')]))
+    # a before_request hook rewrites REQUEST_METHOD / PATH_INFO: the request as it is at dispatch time decides
+    cs.append(dict(cmds=[dict(op='add', rule='/s', methods=['GET'], h=1), dict(op='add', rule='/s', methods=['POST'], h=2),
+                         dict(op='add', rule='/w/<x>', methods=['PUT'], h=3),
+                         dict(op='dispatch', path='/s', verb='POST', sent=dict(path='/s', verb='GET')),
+                         dict(op='dispatch', path='/s', verb='DELETE', sent=dict(path='/s', verb='GET')),
+                         dict(op='dispatch', path='/w/7', verb='PUT', sent=dict(path='/s', verb='PUT')),
+                         dict(op='dispatch', path='/nowhere', verb='GET', sent=dict(path='/s', verb='GET')),
+                         dict(op='dispatch', path='/s', verb='GET', sent=dict(path='/nowhere', verb='BREW')),
+                         dict(op='dispatch', path='/w/é', verb='PUT', sent=dict(path='/w/7', verb='GET'))]))
     # HEAD registered explicitly wins over GET
     cs.append(dict(cmds=[dict(op='add', rule='/s', methods=['GET'], h=1), dict(op='add', rule='/s', methods=['HEAD'], h=2)]
                    + _probe_all(['/s'])))
@@ -139,7 +155,12 @@ def gen(rng, n):
         for rule, hit, miss in picks:
             tail += [dict(op='call_route', rule=rule, verb=v) for v in rng.sample(VERBS, 3)]      # Route.__call__
             tail.append(dict(op='by_rule', rule=rule, form=rng.choice(['set', 'dict', 'routekey'])))
-        yield dict(cmds=inter + _probe_all(paths, verbs) + tail)
+        probes = inter + _probe_all(paths, verbs)
+        for c in probes:
+            if c['op'] == 'dispatch' and rng.random() < 0.1:
+                # the client sends something else; a before_request hook rewrites method / path before the dispatch
+                c['sent'] = dict(verb=rng.choice(VERBS), path=rng.choice(paths + [c['path']]))
+        yield dict(cmds=probes + tail)
 
 
 def thorough():
